@@ -175,7 +175,8 @@ def check_property(pid, tier, seed, do_playback=True):
                 inconclusive.append("%s: solver counterexample did not reproduce natively (%s) -- encoding/stub problem, not reported as a violation" % (r.spec.name, pb.get("why", "test passed")))
                 continue
             key_text = " ; ".join("%s | %s | %s" % (f["property"], f["description"], f["function"]) for f in r.failed) + " ; " + r.spec.name
-            violations.append({"kind": "kani", "name": r.spec.name, "detail": r.reason, "replay": rp, "key": key_text})
+            note = "" if pb.get("reproduced") is True else " [confirmation: %s]" % pb.get("why", "solver verdict")
+            violations.append({"kind": "kani", "name": r.spec.name, "detail": r.reason + note, "replay": rp, "key": key_text})
 
     reported = []
     for v in violations:
